@@ -82,11 +82,27 @@ func New(filename string, src io.Reader) (*Lexer, error) {
 // source adapts a reader to what the two-buffer input expects:
 // every read fills the given block completely unless the input has ended,
 // since the input buffer takes a short read for the end of input.
+//
+// It also makes up for the input buffer loading a half twice: when the lexer steps back across the end of a half
+// and forward again, the buffer loads the other half a second time. It then has to get the same block again,
+// not the block after it, or a buffer's worth of input is skipped.
+// Apart from that, the buffer loads its two halves strictly in turns.
 type source struct {
-	r io.Reader
+	r    io.Reader
+	last []byte // The block that was read last.
+	into *byte  // Where the block that was read last went.
 }
 
 func (s *source) Read(p []byte) (int, error) {
+	if len(p) == 0 {
+		return 0, nil
+	}
+
+	// The same half is being loaded again.
+	if s.into == &p[0] {
+		return copy(p, s.last), nil
+	}
+
 	var n int
 
 	for n < len(p) {
@@ -96,13 +112,15 @@ func (s *source) Read(p []byte) (int, error) {
 		// Only the end of input makes a short block; it is reported again by the next read.
 		// Any other error, including an io.ErrUnexpectedEOF of the reader itself, is a failure.
 		if err == io.EOF && n > 0 {
-			return n, nil
+			break
 		}
 
 		if err != nil {
 			return n, err
 		}
 	}
+
+	s.last, s.into = append(s.last[:0], p[:n]...), &p[0]
 
 	return n, nil
 }
